@@ -934,6 +934,11 @@ def a_T(interp, t):
     return T.permute(t, list(reversed(range(t.rank))))
 
 
+@_attr("is_nested")
+def a_is_nested(interp, t):
+    return False
+
+
 @_attr("is_cuda")
 def a_is_cuda(interp, t):
     return False
@@ -962,6 +967,16 @@ class NestedTensor(list):
             return lambda *a, **k: list(self)
         if name == "is_nested":
             return True
+        if name == "device":
+            return Device()
+        if name == "dtype":
+            return CONST["torch.float32"]
+        if name == "size":
+            def _size(dim=None):
+                if dim in (0, None):
+                    return len(self) if dim == 0 else (len(self),)
+                raise Unsupported("NestedTensor.size(%r)" % (dim,))
+            return _size
         raise Unsupported("NestedTensor.%s" % name)
 
 
